@@ -9,11 +9,11 @@ def life(dev, lh, timeout=900, solver="cadical"):
              defines=["MODE=16", "DEV=%d" % dev, "LH=%d" % lh, "PMAX=2"], cflags=sc.cflags(VERIF), replay_cflags=sc.REPLAY_SYS,
              unwind=13, solver=solver, timeout=timeout, mem_gb=16,
              what="%s device via the HAL: history template (LH=%d rounds) set? start? append? append? stop? stop? [set? start? append? stop?] close, every call optional (symbolic), with a failing open and one-shot / persistent pwrite failures at symbolic indices" % (name, lh),
-             bounds=dict(calls=lh, open_fail_index="-1..4", pwrite_fail_index="-1..6 one-shot and persistent", packet_bytes="1..2"))
+             bounds=dict(calls=lh, open_fail_index="-1..4", flock_fail_index="-1..2", pwrite_fail_index="-1..6 one-shot and persistent", packet_bytes="1..2"))
 
 def harnesses(tier, findings):
     if tier == "quick":
-        return [life(1, 1), life(2, 1)]
+        return [life(1, 2, 1500), life(2, 1)]
     return [life(1, 2, 3000), life(2, 2, 3000)]
 
 META = dict(
